@@ -1573,20 +1573,24 @@ impl Service {
                 // if a failed FindNodes request, ensure we haven't partially received packets. If
                 // so, process the partially found nodes
                 RequestBody::FindNode { ref distances } => {
-                    if let Some(nodes_response) = self.active_nodes_responses.remove(&id) {
-                        if !nodes_response.received_nodes.is_empty() {
-                            let node_id = active_request.contact.node_id();
-                            let addr = active_request.contact.socket_addr();
-                            let received = nodes_response.received_nodes.len();
-                            warn!(%node_id, %addr, %error, %received, requested_distances = ?distances, "FINDNODE request failed with partial results");
-                            // if it's a query mark it as success, to process the partial
-                            // collection of peers
-                            self.discovered(
-                                &node_id,
-                                nodes_response.received_nodes,
-                                active_request.query_id,
-                            );
-                        }
+                    // The packets received so far may not have carried a single acceptable record:
+                    // that is a plain failure, and a query must hear of it.
+                    let partial_response = self
+                        .active_nodes_responses
+                        .remove(&id)
+                        .filter(|nodes_response| !nodes_response.received_nodes.is_empty());
+                    if let Some(nodes_response) = partial_response {
+                        let node_id = active_request.contact.node_id();
+                        let addr = active_request.contact.socket_addr();
+                        let received = nodes_response.received_nodes.len();
+                        warn!(%node_id, %addr, %error, %received, requested_distances = ?distances, "FINDNODE request failed with partial results");
+                        // if it's a query mark it as success, to process the partial
+                        // collection of peers
+                        self.discovered(
+                            &node_id,
+                            nodes_response.received_nodes,
+                            active_request.query_id,
+                        );
                     } else {
                         // there was no partially downloaded nodes inform the query of the failure
                         // if it's part of a query
